@@ -98,8 +98,15 @@ struct OutWriter {
   err: bool,
 }
 
+/// In a quiet job the program's output is counted and thrown away, so that the worker's own memory does not grow with
+/// the length of the run (unmanaged-memory measurements)
+pub static QUIET: std::sync::atomic::AtomicBool = std::sync::atomic::AtomicBool::new(false);
+
 impl Write for OutWriter {
   fn write(&mut self, buf: &[u8]) -> io::Result<usize> {
+    if QUIET.load(std::sync::atomic::Ordering::Relaxed) {
+      return Ok(buf.len());
+    }
     let over = with_world(|world| {
       if self.err {
         world.stderr.extend_from_slice(buf);
